@@ -262,7 +262,7 @@ func (p *c08) RunCase(i int) *core.CaseResult {
 
 func (p *c08) Meta() core.Meta {
 	return core.Meta{
-		Rule: "one case per (query, kind): 30 filter / projection queries (every WHERE operator family, non-idempotent select lists such as a+1 AS a, star plus expression, CASE, function calls, whole-table aggregates evaluated per row, GETVAR / SETVAR / CONSTANT under WithVars and WithConstants) run on a FROM path that resolves to arrays of arrays: every outer array of 1..2 (thorough 3) inner arrays, each any sequence of <= 2 rows over 3 archetypes (ragged, empty), plus depth-3 nestings; the nested result must equal the per-inner-array executions of the same query, and `mix=>` + one query must equal their concatenation. non-trivial = some inner result is non-empty",
+		Rule:        "one case per (query, kind): 30 filter / projection queries (every WHERE operator family, non-idempotent select lists such as a+1 AS a, star plus expression, CASE, function calls, whole-table aggregates evaluated per row, GETVAR / SETVAR / CONSTANT under WithVars and WithConstants) run on a FROM path that resolves to arrays of arrays: every outer array of 1..2 (thorough 3) inner arrays, each any sequence of <= 2 rows over 3 archetypes (ragged, empty), plus depth-3 nestings; the nested result must equal the per-inner-array executions of the same query, and `mix=>` + one query must equal their concatenation. non-trivial = some inner result is non-empty",
 		Assumptions: []string{"only WHERE and the select list are claimed for nested sources (the property's statement); ORDER BY / LIMIT / aggregates over nested sources are not exercised"},
 		Bounds:      map[string]any{"queries": len(c08Queries), "documents": len(p.docs)},
 		Exhaustive:  true,
